@@ -116,6 +116,8 @@ class Wrapper(metaclass=abc.ABCMeta):
             ValueError: If the model outputs are strings.
         """
         try:
+            if np.size(y_prediction) == 1:  # float() only converts 0-dimensional arrays on recent NumPy versions
+                y_prediction = np.reshape(y_prediction, ())
             return {self.default_label: float(y_prediction)}
         except TypeError:  # y_prediction is not a size-1 array or real_valued number
             y_prediction = y_prediction.flatten()
